@@ -19,7 +19,7 @@ func c11(e *Env) {
 	r.Rule("every type × canonical values (as C01, incl. non-empty lists, long prefixed texts, every registered union member at least once; a prefixed text is sometimes an earlier case's text plus a suffix, and each complete image is decoded before its prefixes are tried) × EVERY cut position k in 0..len-1 of the valid image (images longer than 4 KiB: token boundaries ±1 — all of them up to a budget of 16 MB of decoded bytes per image, evenly thinned beyond — plus 256 random offsets). distinct_nontrivial = distinct (image hash) with at least one cut")
 	r.Explain("Oracle: Decode(image[:k]) into a fresh receiver returns a non-nil error and does not panic. Soundness: with C07 (exact consumption) a decoder that accepted image[:k] would have consumed at most k < len bytes on the full image too, so a correct tree cannot accept a strict prefix; types whose image is empty contribute no cuts.")
 	types := e.Types()
-	n := e.N(40, 600)
+	n := e.N(40, 2500)
 	acc := newFeatAcc()
 	var empty int64
 	e.Par(len(types), func(i int) {
